@@ -2,7 +2,9 @@ package ysgo
 
 import (
 	"fmt"
+	"math"
 	"reflect"
+	"strconv"
 
 	"github.com/remieven/ysgo/internal/rng"
 	"github.com/remieven/ysgo/variable"
@@ -282,10 +284,23 @@ func createVariadicInputConverter(functionType reflect.Type) (func([]*variable.V
 	}, nil
 }
 
+// checkIntegerRange returns an error if number, once truncated, can't be held by a signed integer of the given size:
+// converting it anyway would silently give a wrapped or platform-dependent value.
+func checkIntegerRange(number float64, bitSize int) error {
+	limit := math.Ldexp(1, bitSize-1) // 2^(bitSize-1), exactly representable
+	if truncated := math.Trunc(number); math.IsNaN(number) || truncated < -limit || truncated >= limit {
+		return fmt.Errorf("number %v cannot be converted to a %d bits integer", number, bitSize)
+	}
+	return nil
+}
+
 var argConverterByGoalKind map[reflect.Kind]func(*variable.Value) (reflect.Value, error) = map[reflect.Kind]func(*variable.Value) (reflect.Value, error){
 	reflect.Int: func(value *variable.Value) (reflect.Value, error) {
 		if value.Number == nil {
 			return reflect.Value{}, fmt.Errorf("expected a number value but got something else")
+		}
+		if err := checkIntegerRange(*value.Number, strconv.IntSize); err != nil {
+			return reflect.Value{}, err
 		}
 		return reflect.ValueOf(int(*value.Number)), nil
 	},
@@ -293,11 +308,17 @@ var argConverterByGoalKind map[reflect.Kind]func(*variable.Value) (reflect.Value
 		if value.Number == nil {
 			return reflect.Value{}, fmt.Errorf("expected a number value but got something else")
 		}
+		if err := checkIntegerRange(*value.Number, 8); err != nil {
+			return reflect.Value{}, err
+		}
 		return reflect.ValueOf(int8(*value.Number)), nil
 	},
 	reflect.Int16: func(value *variable.Value) (reflect.Value, error) {
 		if value.Number == nil {
 			return reflect.Value{}, fmt.Errorf("expected a number value but got something else")
+		}
+		if err := checkIntegerRange(*value.Number, 16); err != nil {
+			return reflect.Value{}, err
 		}
 		return reflect.ValueOf(int16(*value.Number)), nil
 	},
@@ -305,11 +326,17 @@ var argConverterByGoalKind map[reflect.Kind]func(*variable.Value) (reflect.Value
 		if value.Number == nil {
 			return reflect.Value{}, fmt.Errorf("expected a number value but got something else")
 		}
+		if err := checkIntegerRange(*value.Number, 32); err != nil {
+			return reflect.Value{}, err
+		}
 		return reflect.ValueOf(int32(*value.Number)), nil
 	},
 	reflect.Int64: func(value *variable.Value) (reflect.Value, error) {
 		if value.Number == nil {
 			return reflect.Value{}, fmt.Errorf("expected a number value but got something else")
+		}
+		if err := checkIntegerRange(*value.Number, 64); err != nil {
+			return reflect.Value{}, err
 		}
 		return reflect.ValueOf(int64(*value.Number)), nil
 	},
